@@ -14,6 +14,9 @@ or `err=<class>`; after an error every further line of the case is answered `dea
   sep <x> <y|j.p>                         x.separate_out(y, energy_balance=False)
   copy <d> <s> <*|=c|c,c,..|()> <rm> <ex> [phase]  d.copy_flow(s, [phase,] IDs, remove=, exclude=)
   scale <i> <k> | idiv <i> <k> | mul <i> <k> | div <i> <k> | empty <i>
+  mix lines may carry `vle` or `cp` (vle=True / conserve_phases=True) before `eb`: totals only, last op of the case
+  mix / sum / split / sep lines may end with `eb`: the call is made with the default energy_balance=True
+  iadd <a> <b> (a += b) | add <a> <b> (a + b, new stream on package 0) | isub <a> <b> (a -= b) | neg <a> | rmul <a> <k> (k * a) | imul <a> <k>
 -/
 namespace Driver.C01
 open ThermoVerif.Flow Driver
@@ -98,6 +101,33 @@ def step (st : St) (line : String) : St × String :=
   let toks := match splitWs line with
     | ["new", a, b, c, d, o] => if o.startsWith "o" && (parseNats (o.drop 1).toString).isSome then ["new", a, b, c, d] else ["new", a, b, c, d, o]
     | l => l
+  -- a trailing `ph:<i>:<letter>` = the phase label stream i ended with after an energy balance (g <-> l flip of the
+  -- enthalpy setter: external numerics, reported by the harness)
+  let flip : Option (Nat × Char) := match toks.getLast? with
+    | some t => if t.startsWith "ph:" then
+        match splitOn1 (t.drop 3).toString ':' with
+        | [i, p] => match i.toNat?, p.toList with
+          | some i, [c] => some (i, c)
+          | _, _ => none
+        | _ => none
+      else none
+    | none => none
+  let toks := if flip.isSome then toks.dropLast else toks
+  -- a trailing `eb` = the library default `energy_balance=True`
+  let eb := toks.getLast? == some "eb"
+  let toks := if eb then toks.dropLast else toks
+  -- `vle` / `cp` (vle=True / conserve_phases=True): the phase layout afterwards is the flash's / the setter's business;
+  -- the model answers the totals only and the case ends
+  let totalsOnly := toks.getLast? == some "vle" || toks.getLast? == some "cp"
+  let toks := if totalsOnly then toks.dropLast else toks
+  let finish (st : St) (r : Except Err World) : St × String :=
+    let r := match flip, r with
+      | some (i, p), .ok w' => .ok (flipPhase w' i p)
+      | _, r => r
+    let (st', o) := Driver.C01.finish st r
+    if totalsOnly && !o.startsWith "err=" then
+      ({ st' with dead := true }, (o.splitOn " ph=").headD o)
+    else (st', o)
   match toks with
   | ["pkg", ids] =>
     match parseNats ids with
@@ -122,22 +152,22 @@ def step (st : St) (line : String) : St × String :=
     | _, _, _ => bad st
   | ["mix", r, ins] =>
     match r.toNat?, parseRefs ins with
-    | some r, some ins => if r < w.strms.length then finish st (mixR w r ins) else finish st (mix w r [])
+    | some r, some ins => if r < w.strms.length then finish st (mixR w r ins eb) else finish st (mix w r [])
     | _, _ => bad st
   | ["sum", pkg, ins] =>
     match pkg.toNat?, parseNats ins with
-    | some p, some ins => if p < w.pkgs.length then finish st (sumNew w p ins) else bad st
+    | some p, some ins => if p < w.pkgs.length then finish st (sumNewE w p ins eb) else bad st
     | _, _ => bad st
   | ["split", f, a, b, kind, q] =>
     match f.toNat?, a.toNat?, b.toNat? with
     | some f, some a, some b =>
       if kind == "s" then
         match parseRat? q with
-        | some q => finish st (split w f a b (.scalar q))
+        | some q => finish st (split w f a b (.scalar q) eb)
         | none => bad st
       else if kind == "v" then
         match parseRats q, w.strms[f]? with
-        | some v, some fs => if v.length == (w.pkgOf fs).length then finish st (split w f a b (.vector v)) else bad st
+        | some v, some fs => if v.length == (w.pkgOf fs).length then finish st (split w f a b (.vector v) eb) else bad st
         | _, _ => bad st
       else bad st
     | _, _, _ => bad st
@@ -162,6 +192,31 @@ def step (st : St) (line : String) : St × String :=
   | ["div", i, k] =>
     match i.toNat?, parseRat? k with
     | some i, some k => finish st (divNew w i k)
+    | _, _ => bad st
+  -- operator forms (library defaults, i.e. with the energy balance)
+  | ["iadd", a, b] =>
+    match a.toNat?, b.toNat? with
+    | some a, some b => if a < w.strms.length then finish st (mixR w a [.strm a, .strm b] true) else bad st
+    | _, _ => bad st
+  | ["add", a, b] =>
+    match a.toNat?, b.toNat? with
+    | some a, some b => if 0 < w.pkgs.length then finish st (sumNewE w 0 [a, b] true) else bad st
+    | _, _ => bad st
+  | ["isub", a, b] =>
+    match a.toNat?, b.toNat? with
+    | some a, some b => if a < w.strms.length then finish st (sepR w a (.strm b)) else bad st
+    | _, _ => bad st
+  | ["neg", i] =>
+    match i.toNat? with
+    | some i => finish st (negNew w i)
+    | none => bad st
+  | ["rmul", i, k] =>
+    match i.toNat?, parseRat? k with
+    | some i, some k => finish st (mulNew w i k)
+    | _, _ => bad st
+  | ["imul", i, k] =>
+    match i.toNat?, parseRat? k with
+    | some i, some k => finish st (scale w i k)
     | _, _ => bad st
   | ["empty", i] =>
     match i.toNat? with
